@@ -58,6 +58,8 @@ type workerSummary struct {
 	WallS        float64            `json:"wall_s"`
 }
 
+var devNoMin bool
+
 func seedOf(base uint64, i int) uint64 { return simrt.Mix64(base, uint64(i)+0x5151) }
 
 func main() {
@@ -81,6 +83,7 @@ func main() {
 		only     = flag.String("scenario", "", "restrict to one scenario name")
 		selftest = flag.Bool("selftest", false, "determinism self-test")
 		list     = flag.Bool("list", false, "list scenarios")
+		nomin    = flag.Bool("nomin", false, "development: list all violation signatures, do not minimise (exit 3)")
 	)
 	flag.Parse()
 	simrt.WatchdogSeconds = 120
@@ -136,6 +139,7 @@ func main() {
 	if *selftest {
 		os.Exit(doSelftest(*prop, *seed, *scratch, *runs, *only))
 	}
+	devNoMin = *nomin
 	os.Exit(runMaster(*prop, *tier, *seed, *workers, tc, *evidence, *scratch, *replays, *known, *only))
 }
 
@@ -157,8 +161,8 @@ func runWorker(scs []*Scenario, base uint64, from, step int, tc tierCfg, wantHas
 		if time.Now().After(deadline) {
 			break
 		}
-		sc := scs[i%len(scs)]
-		rep := runOne(sc, seedOf(base, i), nil, false)
+		sc, cell := pickScenario(scs, i)
+		rep := runOne(sc, seedOf(base, i), nil, false, cell)
 		sum.Runs++
 		sum.Steps += rep.Steps
 		sum.Switches += rep.Switches
@@ -229,6 +233,27 @@ func runWorker(scs []*Scenario, base uint64, from, step int, tc tierCfg, wantHas
 	os.Stdout.Write([]byte("\n"))
 }
 
+// pickScenario maps a run index to (scenario, cell): enumerating scenarios get their cells
+// first, one run each; the remaining indices sample the other scenarios round-robin.
+func pickScenario(scs []*Scenario, i int) (*Scenario, int) {
+	var sampled []*Scenario
+	for _, s := range scs {
+		if s.Cells > 0 {
+			if i < s.Cells {
+				return s, i
+			}
+			i -= s.Cells
+		} else {
+			sampled = append(sampled, s)
+		}
+	}
+	if len(sampled) == 0 {
+		s := scs[0]
+		return s, i % s.Cells
+	}
+	return sampled[i%len(sampled)], 0
+}
+
 // ---------------------------------------------------------------- master
 
 type knownFinding struct {
@@ -256,11 +281,31 @@ func loadKnown(path string) *knownFile {
 
 func (kf *knownFile) match(prop, sig string) *knownFinding {
 	for i := range kf.Known {
-		if kf.Known[i].Property == prop && kf.Known[i].Sig == sig {
+		if kf.Known[i].Property == prop && globMatch(kf.Known[i].Sig, sig) {
 			return &kf.Known[i]
 		}
 	}
 	return nil
+}
+
+// globMatch: '*' in the pattern matches any run of characters.
+func globMatch(pat, s string) bool {
+	parts := strings.Split(pat, "*")
+	if len(parts) == 1 {
+		return pat == s
+	}
+	if !strings.HasPrefix(s, parts[0]) {
+		return false
+	}
+	s = s[len(parts[0]):]
+	for i := 1; i < len(parts)-1; i++ {
+		j := strings.Index(s, parts[i])
+		if j < 0 {
+			return false
+		}
+		s = s[j+len(parts[i]):]
+	}
+	return strings.HasSuffix(s, parts[len(parts)-1])
 }
 
 func spawnWorkers(prop, tier string, seed uint64, workers int, tc tierCfg, scratch string, hashes bool, gomaxprocs int, only string) ([]*workerSummary, error) {
@@ -283,7 +328,7 @@ func spawnWorkers(prop, tier string, seed uint64, workers int, tc tierCfg, scrat
 			}
 			cmd := exec.Command(exe, args...)
 			cmd.Env = append(os.Environ(), "SIMRUN_RACELOG="+filepath.Join(scratch, "race"),
-				"GORACE=log_path="+filepath.Join(scratch, "race")+" halt_on_error=0 history_size=2")
+				"GORACE=log_path="+filepath.Join(scratch, "race")+" halt_on_error=0 exitcode=0 history_size=2")
 			if gomaxprocs > 0 {
 				cmd.Env = append(cmd.Env, "GOMAXPROCS="+strconv.Itoa(gomaxprocs))
 			}
@@ -429,6 +474,15 @@ func runMaster(prop, tier string, seed uint64, workers int, tc tierCfg, evidence
 	}
 	exit := 0
 	var replayPaths []string
+	if devNoMin {
+		for _, r := range unknown {
+			fmt.Printf("NEW %s x%d scenario=%s seed=%d cell=%d\n", r.Viols[0].Sig, agg.ViolCount[r.Viols[0].Sig], r.Scenario, r.Seed, r.Cell)
+		}
+		if len(unknown) > 0 {
+			exit = 3
+		}
+		unknown = nil
+	}
 	if len(unknown) > 0 {
 		os.MkdirAll(replays, 0755)
 		max := 3 // minimise and report up to three distinct new violations
@@ -555,6 +609,7 @@ type replayFile struct {
 	Property  string      `json:"property"`
 	Scenario  string      `json:"scenario"`
 	Seed      uint64      `json:"seed"`
+	Cell      int         `json:"cell"`
 	Tape      simrt.Tape  `json:"tape"`
 	Violation *Violation  `json:"violation"`
 	Trace     []string    `json:"trace,omitempty"`
@@ -583,7 +638,7 @@ func doReplay(path string, asJSON bool) int {
 		}
 	}
 	tape := rf.Tape
-	rep := runOne(sc, rf.Seed, &tape, true)
+	rep := runOne(sc, rf.Seed, &tape, true, rf.Cell)
 	if asJSON {
 		js, _ := json.Marshal(rep)
 		fmt.Println(string(js))
@@ -620,8 +675,8 @@ func doReplay(path string, asJSON bool) int {
 }
 
 // replayInFresh runs a tape in a fresh subprocess and returns its report.
-func replayInFresh(prop, scen string, seed uint64, tape *simrt.Tape, scratch string, id int) (*RunReport, error) {
-	rf := &replayFile{Property: prop, Scenario: scen, Seed: seed, Tape: *tape}
+func replayInFresh(prop, scen string, cell int, seed uint64, tape *simrt.Tape, scratch string, id int) (*RunReport, error) {
+	rf := &replayFile{Property: prop, Scenario: scen, Cell: cell, Seed: seed, Tape: *tape}
 	b, _ := json.Marshal(rf)
 	p := filepath.Join(scratch, fmt.Sprintf("cand-%d-%d.json", os.Getpid(), id))
 	if err := os.WriteFile(p, b, 0644); err != nil {
@@ -631,7 +686,7 @@ func replayInFresh(prop, scen string, seed uint64, tape *simrt.Tape, scratch str
 	exe, _ := os.Executable()
 	cmd := exec.Command(exe, "-replay", p, "-json")
 	rl := filepath.Join(scratch, fmt.Sprintf("racec-%d-%d", os.Getpid(), id))
-	cmd.Env = append(os.Environ(), "SIMRUN_RACELOG="+rl, "GORACE=log_path="+rl+" halt_on_error=0 history_size=2")
+	cmd.Env = append(os.Environ(), "SIMRUN_RACELOG="+rl, "GORACE=log_path="+rl+" halt_on_error=0 exitcode=0 history_size=2")
 	var out, eb bytes.Buffer
 	cmd.Stdout = &out
 	cmd.Stderr = &eb
@@ -666,7 +721,7 @@ func minimiseAndWrite(prop string, r *RunReport, replays, scratch string) (strin
 	sig := r.Viols[0].Sig
 	best := r.Tape
 	// first: confirm in a fresh process with the recorded tape
-	rep0, err := replayInFresh(prop, r.Scenario, r.Seed, &best, scratch, 0)
+	rep0, err := replayInFresh(prop, r.Scenario, r.Cell, r.Seed, &best, scratch, 0)
 	if err != nil {
 		fmt.Fprintln(os.Stderr, "simrun:", err)
 		return "", 2
@@ -695,7 +750,7 @@ func minimiseAndWrite(prop string, r *RunReport, replays, scratch string) (strin
 				defer wg.Done()
 				sem <- struct{}{}
 				defer func() { <-sem }()
-				rp, err := replayInFresh(prop, r.Scenario, r.Seed, &cands[i], scratch, id)
+				rp, err := replayInFresh(prop, r.Scenario, r.Cell, r.Seed, &cands[i], scratch, id)
 				out[i] = res{rp, err}
 			}(i, id)
 		}
@@ -795,7 +850,7 @@ func minimiseAndWrite(prop string, r *RunReport, replays, scratch string) (strin
 	}
 	// final: write and verify
 	v := hasSig(bestRep, sig)
-	rf := &replayFile{Property: prop, Scenario: r.Scenario, Seed: r.Seed, Tape: best, Violation: v,
+	rf := &replayFile{Property: prop, Scenario: r.Scenario, Cell: r.Cell, Seed: r.Seed, Tape: best, Violation: v,
 		Trace: bestRep.Trace, Case: bestRep.Sample, RaceBuild: simrt.RaceBuild,
 		Note: fmt.Sprintf("minimised from %d to %d tape entries; replay with: bin/check %s --replay <this file>", tapeSize(&r.Tape), tapeSize(&best), prop)}
 	b, _ := json.MarshalIndent(rf, "", " ")
@@ -804,7 +859,7 @@ func minimiseAndWrite(prop string, r *RunReport, replays, scratch string) (strin
 		fmt.Fprintln(os.Stderr, "simrun:", err)
 		return "", 2
 	}
-	final, err := replayInFresh(prop, r.Scenario, r.Seed, &best, scratch, id+1)
+	final, err := replayInFresh(prop, r.Scenario, r.Cell, r.Seed, &best, scratch, id+1)
 	if err != nil || hasSig(final, sig) == nil {
 		fmt.Fprintf(os.Stderr, "simrun: machinery error: minimised replay %s does not reproduce %q in a fresh process (%v)\n", path, sig, err)
 		return "", 2
